@@ -451,6 +451,21 @@ def shrink_unit(L, unit, bad, budget_s=15.0):
     for i, c in enumerate(u.constants):
       for t in type_variants(c.type):
         yield u.Replace(constants=u.constants[:i] + (c.Replace(type=t),) + u.constants[i + 1:])
+    for ci, c in enumerate(u.classes):
+      def with_methods(ms, c=c, ci=ci):
+        return u.Replace(classes=u.classes[:ci] + (c.Replace(methods=tuple(ms)),) + u.classes[ci + 1:])
+      if c.constants:
+        yield u.Replace(classes=u.classes[:ci] + (c.Replace(constants=()),) + u.classes[ci + 1:])
+      for i, f in enumerate(c.methods):
+        yield with_methods(c.methods[:i] + c.methods[i + 1:])
+        if len(f.signatures) > 1:
+          for j in range(len(f.signatures)):
+            yield with_methods(c.methods[:i] + (f.Replace(signatures=f.signatures[:j] + f.signatures[j + 1:]),)
+                               + c.methods[i + 1:])
+        for j, sg in enumerate(f.signatures):
+          for s2 in sig_variants(sg):
+            yield with_methods(c.methods[:i] + (f.Replace(signatures=f.signatures[:j] + (s2,) + f.signatures[j + 1:]),)
+                               + c.methods[i + 1:])
 
   def sig_variants(s):
     for j in range(len(s.params)):
@@ -462,6 +477,8 @@ def shrink_unit(L, unit, bad, budget_s=15.0):
     for j, p in enumerate(s.params):
       if p.mutated_type is not None:
         yield s.Replace(params=s.params[:j] + (p.Replace(mutated_type=None),) + s.params[j + 1:])
+        for t in type_variants(p.mutated_type):
+          yield s.Replace(params=s.params[:j] + (p.Replace(mutated_type=t),) + s.params[j + 1:])
       for t in type_variants(p.type):
         yield s.Replace(params=s.params[:j] + (p.Replace(type=t),) + s.params[j + 1:])
 
